@@ -2,8 +2,8 @@ CFG = dict(
     prop="C03", level="other", harness="c03",
     props_files=["theories/Props/C03.v"], corr_file="theories/Corr/C03.v", corr_module="Corr.C03",
     # a mismatch in 'scan' is a text on which the real scan panics: a concrete failing input of C03
-    groups={"scan": True, "htc": False, "loop": False},
-    show_fn={"scan": "model_scan", "htc": "model_htc", "loop": "model_loop"},
+    groups={"scan": True, "htc": False, "loop": False, "aei": False},
+    show_fn={"scan": "model_scan", "htc": "model_htc", "loop": "model_loop", "aei": "model_aei"},
     shard=150,
     harness_timeout=2400,
     design_ref="DESIGN.md 6.3",
